@@ -965,6 +965,19 @@ func (w *world) scripted(prop string, sc int, rng *mrand.Rand) {
 			rs := reqSpec{method: methodPool[rng.Intn(len(methodPool))], note: "request on the established session"}
 			w.plain(w.randomURI(rng, "C04"), rs, rng)
 		}
+		// the last minutes before the configured grace period begins: still more than the grace period from expiry, so still no
+		// provider round-trip (whatever other tolerances the code knows)
+		if tok := w.loginTok[w.b]; tok != nil && w.loggedIn[w.b] {
+			for _, d := range []int64{200, 89, 59, 31, 2, 1} {
+				left := tok.exp - time.Now().Unix()
+				if left-int64(w.grace)-d <= 0 || time.Now().Unix()+left-int64(w.grace)-d-w.loginAt[w.b] > 86000 {
+					continue
+				}
+				w.wait(time.Duration(left-int64(w.grace)-d) * time.Second)
+				w.plain("/last-minutes", reqSpec{note: fmt.Sprintf("%d s before the refresh grace period begins", d)}, rng)
+				T.stat("handler.c04-last-minutes-before-grace")
+			}
+		}
 	case "C08":
 		if sc%7 == 5 {
 			w.refreshTransition(sc/7, rng)
